@@ -19,6 +19,8 @@ const CONFIGS: &[&str] = &[
     "{rules: [{rule: 'convert_require', current: 'path', target: 'roblox'}]}",
 ];
 
+const BROKEN: &str = "return (\n";
+const FOREIGN: [&str; 3] = ["out/README.txt", "out/lib/keep.me", "out/broken.lua"];
 const LUAURC: [&str; 2] = ["{\"aliases\": {\"u\": \"./util/c.lua\"}}", "{\"aliases\": {\"u\": \"./solo.lua\"}}"];
 
 fn initial_files() -> Vec<(&'static str, String)> {
@@ -33,6 +35,9 @@ fn initial_files() -> Vec<(&'static str, String)> {
         ("src/.luaurc", LUAURC[0].to_owned()),
         ("src/pkg/deep/leaf.lua", "-- leaf v0\nreturn 'leaf0'\n".to_owned()),
         ("vendor/v.lua", "-- v v0\nreturn 'v0'\n".to_owned()),
+        // a source that never parses, and a file that is not darklua's at the place where its output would be
+        ("src/broken.lua", BROKEN.to_owned()),
+        ("out/broken.lua", "foreign file at the place of an output".to_owned()),
         ("out/README.txt", "foreign readme".to_owned()),
         ("out/lib/keep.me", "foreign keep".to_owned()),
         (".darklua.json", CONFIGS[0].to_owned()),
@@ -75,6 +80,9 @@ pub const EVENTS: &[Event] = &[
     Event::Edit("src/.luaurc"),
     Event::RemoveFile("src/.luaurc"),
     Event::Add("src/.luaurc"),
+    // the source that never parses (darklua never wrote its output: the file at that place stays)
+    Event::RemoveFile("src/broken.lua"),
+    Event::Add("src/broken.lua"),
     Event::SetConfig(1),
     Event::SetConfig(2),
     Event::SetConfig(3),
@@ -281,7 +289,7 @@ impl World {
                     }
                     Event::Add(f) => {
                         if store.get(f).is_none() {
-                            let body = if f.ends_with(".luaurc") { LUAURC[1].to_owned() } else if f.ends_with("b.lua") { "-- b v0\nreturn 'b0'\n".to_owned() } else if f.ends_with("v.lua") { "-- v v0\nreturn 'v0'\n".to_owned() } else { format!("-- {} v0\nreturn 'n0'\n", f) };
+                            let body = if f.ends_with("broken.lua") { BROKEN.to_owned() } else if f.ends_with(".luaurc") { LUAURC[1].to_owned() } else if f.ends_with("b.lua") { "-- b v0\nreturn 'b0'\n".to_owned() } else if f.ends_with("v.lua") { "-- v v0\nreturn 'v0'\n".to_owned() } else { format!("-- {} v0\nreturn 'n0'\n", f) };
                             store.write(f, &body);
                             has_created = true;
                         }
@@ -411,7 +419,7 @@ fn judge_hiding(w: &World, hidden: &[&str]) -> Vec<String> {
     let guard = if on_disk { tempfile::tempdir().ok() } else { None };
     let fresh = Store { res: if on_disk { Resources::from_file_system() } else { Resources::from_memory() }, root: guard.as_ref().map(|g| g.path().to_path_buf()) };
     for (p, c) in &files {
-        let generated = p.starts_with("out/") && p != "out/README.txt" && p != "out/lib/keep.me";
+        let generated = p.starts_with("out/") && !FOREIGN.contains(&p.as_str());
         if !generated {
             fresh.write(p, c);
         }
@@ -454,7 +462,7 @@ fn judge_hiding(w: &World, hidden: &[&str]) -> Vec<String> {
         if p.starts_with("out/") {
             match fresh_files.get(p) {
                 Some(f) => {
-                    if (p == "out/README.txt" || p == "out/lib/keep.me") && f != c {
+                    if FOREIGN.contains(&p.as_str()) && f != c {
                         problems.push(format!("foreign file {} was changed", p));
                     }
                 }
@@ -466,7 +474,7 @@ fn judge_hiding(w: &World, hidden: &[&str]) -> Vec<String> {
             }
         }
     }
-    for p in ["out/README.txt", "out/lib/keep.me"] {
+    for p in FOREIGN {
         if !files.contains_key(p) {
             problems.push(format!("foreign file {} was deleted", p));
         }
@@ -746,6 +754,106 @@ fn watch_binary_cases(tier: Tier, report: &mut Report) {
 }
 
 
+
+// ------------------------------------------------------------------------------------------------ a text file read by a rule
+
+/// `append_text_comment` with `file`: the text file is read from the real file system, so this family runs in a temporary
+/// directory only. Every sequence of up to 3 events over {edit the text file, edit a source, spurious notification for the
+/// text file}; after each one a pass, compared with a fresh run in another directory
+fn header_file_cases(report: &mut Report) {
+    #[derive(Clone, Copy, Debug)]
+    enum Ev {
+        EditHeader,
+        EditSource,
+        SpuriousHeader,
+    }
+    let alphabet = [Ev::EditHeader, Ev::EditSource, Ev::SpuriousHeader];
+    let mut histories: Vec<Vec<Ev>> = Vec::new();
+    let mut level: Vec<Vec<Ev>> = vec![vec![]];
+    for _ in 0..3 {
+        level = level.iter().flat_map(|h| alphabet.iter().map(move |e| { let mut t = h.clone(); t.push(*e); t })).collect();
+        histories.extend(level.iter().cloned());
+    }
+    let write_all = |root: &std::path::Path, files: &BTreeMap<String, String>| {
+        for (p, c) in files {
+            let full = root.join(p);
+            let _ = std::fs::create_dir_all(full.parent().unwrap());
+            let _ = std::fs::write(full, c);
+        }
+    };
+    let options = |root: &std::path::Path| Options::new(root.join("src")).with_output(root.join("out")).with_configuration_at(root.join(".darklua.json"));
+    let outputs = |root: &std::path::Path| -> BTreeMap<String, String> {
+        let store = Store { res: Resources::from_file_system(), root: Some(root.to_path_buf()) };
+        store.walk("out").into_iter().map(|p| { let c = store.get(&p).unwrap_or_default(); (p, c) }).collect()
+    };
+    let mut configs = Vec::new();
+    for location in ["start", "end"] {
+        configs.push(format!("{{rules: [{{rule: 'append_text_comment', file: 'header.txt', location: '{}'}}]}}", location));
+    }
+    let jobs: Vec<(String, Vec<Ev>)> = configs.iter().flat_map(|c| histories.iter().map(move |h| (c.clone(), h.clone()))).collect();
+    let results: Vec<Option<Violation>> = jobs
+        .par_iter()
+        .map(|(config, history)| {
+            let dir = tempfile::tempdir().ok()?;
+            let root = dir.path().to_path_buf();
+            let mut files: BTreeMap<String, String> = BTreeMap::new();
+            files.insert("src/a.lua".into(), "return 'a0'\n".into());
+            files.insert("src/sub/b.lua".into(), "return 'b'\n".into());
+            files.insert("header.txt".into(), "header 0".into());
+            files.insert(".darklua.json".into(), config.clone());
+            write_all(&root, &files);
+            let res = Resources::from_file_system();
+            let mut tree = match guarded({ let res = res.clone(); let o = options(&root); move || darklua_core::process(&res, o) }) {
+                Ok(Ok(t)) => t,
+                _ => return Some(Violation { finding: None, summary: format!("the first pass fails with {}", config), replay: json!({"kind": "text file", "config": config}) }),
+            };
+            for (i, ev) in history.iter().enumerate() {
+                match ev {
+                    Ev::EditHeader => {
+                        let c = format!("header {}\nsecond line", i + 1);
+                        let _ = std::fs::write(root.join("header.txt"), &c);
+                        files.insert("header.txt".into(), c);
+                        tree.source_changed(root.join("header.txt"));
+                    }
+                    Ev::EditSource => {
+                        let c = format!("return 'a{}'\n", i + 1);
+                        let _ = std::fs::write(root.join("src/a.lua"), &c);
+                        files.insert("src/a.lua".into(), c);
+                        tree.source_changed(root.join("src/a.lua"));
+                    }
+                    Ev::SpuriousHeader => tree.source_changed(root.join("header.txt")),
+                }
+                let r = res.clone();
+                let o = options(&root);
+                let (t, outcome) = match guarded(move || { let r2 = tree.process(&r, o).map_err(|e| e.to_string()); (tree, r2) }) {
+                    Ok(x) => x,
+                    Err(p) => return Some(Violation { finding: None, summary: format!("PANIC in the pass after {:?}: {}", &history[..=i], p), replay: json!({"kind": "text file", "config": config, "history": format!("{:?}", history)}) }),
+                };
+                tree = t;
+                let fresh_dir = tempfile::tempdir().ok()?;
+                write_all(fresh_dir.path(), &files);
+                let fr = Resources::from_file_system();
+                let fo = options(fresh_dir.path());
+                let _ = guarded(move || darklua_core::process(&fr, fo));
+                let want = outputs(fresh_dir.path());
+                let got = outputs(&root);
+                if want != got || outcome.is_err() {
+                    let diff: Vec<String> = want.iter().filter(|(k, v)| got.get(*k) != Some(v)).map(|(k, v)| format!("{}: fresh run {:?}, worker left {:?}", k, v, got.get(k))).collect();
+                    return Some(Violation {
+                        finding: None,
+                        summary: format!("after the events {:?} the outputs differ from a fresh run ({:?}): {}\n--- configuration {}; header.txt is the file named by the rule", &history[..=i], outcome.err(), diff.join("; "), config),
+                        replay: json!({"kind": "text file", "config": config, "history": format!("{:?}", history), "differences": diff}),
+                    });
+                }
+            }
+            None
+        })
+        .collect();
+    report.evaluations += jobs.len() as u64;
+    report.set("text_file_histories", jobs.len() as u64);
+    report.violations.extend(results.into_iter().flatten());
+}
+
 // ------------------------------------------------------------------------------------------------ configuration switches
 
 /// every ordered pair of variants of one rule (the property menus of C19): a worker that processed the project with the first
@@ -954,7 +1062,7 @@ fn explore(on_disk: bool, tier: Tier, report: &mut Report) -> (usize, usize) {
 pub fn run(tier: Tier) -> Report {
     let mut report = Report::new("C10", "model_checking", tier);
     report.rule = "project: bundle entry src/main.lua (requires ./lib/a and ../vendor/v outside the input), src/lib/a.lua (requires ./b), src/lib/b.lua, src/util/c.lua, src/solo.lua, \
-        src/pkg/top.lua (requires `@u`, an alias of src/.luaurc that names a file), src/pkg/deep/leaf.lua, foreign files out/README.txt and out/lib/keep.me, 7 configurations (bundle+no rules, \
+        src/pkg/top.lua (requires `@u`, an alias of src/.luaurc that names a file), src/pkg/deep/leaf.lua, src/broken.lua (never parses), foreign files out/README.txt, out/lib/keep.me and out/broken.lua (at the place of an output that is never written), 7 configurations (bundle+no rules, \
         +remove_comments, +rule filter, +dense generator, no bundle, top-level skip_files, convert_require path -> roblox). Labels = the events listed under `events` (edit of each source / \
         bundled dependency / external dependency / .luaurc, add, re-add, add of a file earlier in the resolution order, remove file, remove directory, rename, configuration change, spurious notifications) delivered exactly as \
         FileWatcher::process_events does, in batches of 1 or 2 events followed by WorkerTree::process. BFS over batches from the state after the initial run, states rebuilt by replaying \
@@ -975,6 +1083,7 @@ pub fn run(tier: Tier) -> Report {
     let t0 = std::time::Instant::now();
     watch_binary_cases(tier, &mut report);
     config_switch_cases(&mut report);
+    header_file_cases(&mut report);
     report.set("seconds_watch_process", t0.elapsed().as_secs_f64());
     report.traces_validated = report.transitions;
     report.exhaustive = false;
